@@ -8,6 +8,9 @@
 //!   replay list                            one line per registered harness
 use std::panic;
 
+#[global_allocator]
+static ALLOC: vk::alloc_count::Counting = vk::alloc_count::Counting;
+
 fn outcome(h: &vk::H, v: &[u64]) -> Result<(), String> {
     let run = h.run;
     let vv = v.to_vec();
